@@ -394,3 +394,67 @@ STANDIN[r"bounds\\.declared"] = BOUNDS_REPLAY
 unit("C10", "resimulation.pairs")(_CR.pairs_unit)
 unit("C10", "run_evolve")(_CR.evolve_unit)
 STANDIN[r"resimulation|run_evolve"] = _CR.PAIRS_REPLAY
+
+
+# ---- representation of the declared values: what the layout units ASSUME about ParameterValues.values ---------------------------------------
+VALUES_REPLAY = lambda w: {"code": """
+import numpy as np
+from pyxel.observation import ParameterValues
+from pyxel.calibration.fitting_datatree import ModelFittingDataTree
+class Fake(ModelFittingDataTree):
+    def __init__(self, variables): self._variables = variables
+VIOLATED, DETAIL = False, 'a vector parameter declared with any sequence of placeholders is one variable of that many components in every function of the problem'
+for vals in (['_', '_', '_'], ('_', '_', '_'), ('_', '_'), ['_']):
+    vs = [ParameterValues(key='a.b.s', values='_', boundaries=[0.0, 5.0]), ParameterValues(key='a.b.vec', values=vals, boundaries=[1.0, 100.0], logarithmic=True),
+          ParameterValues(key='a.b.t', values='_', boundaries=[10.0, 1000.0], logarithmic=True)]
+    f = Fake(vs)
+    n = len(vals)
+    lo, hi = f._set_bound()
+    d = np.array([4.5] + [1.0] * n + [2.0])
+    got = f.convert_to_parameters(d)
+    calls = []
+    class P:
+        def set(self, key, value): calls.append((key, np.array(value).tolist()))
+    import unittest.mock as m
+    with m.patch('copy.deepcopy', lambda p: p):
+        f.update_processor(parameter=got, processor=P())
+    want_calls = [('a.b.s', 4.5), ('a.b.vec', [10.0] * n) if n > 1 or isinstance(vals, (list, tuple)) else None, ('a.b.t', 100.0)]
+    if len(lo) != n + 2 or not np.allclose(got, [4.5] + [10.0] * n + [100.0]) or [c[0] for c in calls] != ['a.b.s', 'a.b.vec', 'a.b.t'] or not np.allclose(np.ravel(calls[1][1]), [10.0] * n) or not np.allclose(calls[2][1], 100.0):
+        VIOLATED, DETAIL = True, f'values={vals!r}: {len(lo)} box components, parameters {np.asarray(got).tolist()}, applied {calls}'; break
+    if not isinstance(vs[1].values, list):
+        VIOLATED, DETAIL = True, f'values={vals!r} stored as {type(vs[1].values).__name__}: the layout functions only recognise a list as a vector parameter'; break
+""", "expect": "box, conversion and application agree on the number of components of every variable, whatever sequence type declared it"}
+
+
+@unit("C10", "values.representation")
+def values_representation(u: Unit):
+    """ParameterValues.__init__ (with convert_values) for values declared as '_' or as a list / tuple of 1..3 placeholders: the stored
+    `values` is the text '_' or a LIST with one entry per declared placeholder — the representation invariant under which the layout units
+    (convert.layout, update.layout, bounds) identify a vector parameter (`isinstance(values, list)`) and count its components."""
+    PVQ_ = "pyxel/observation/parameter_values.py"
+    fi = u.fn(f"{PVQ_}::ParameterValues.__init__")
+    u.fn(f"{PVQ_}::convert_values")
+    ci = u.cls(f"{PVQ_}::ParameterValues")
+    for kind in ("text", "list1", "list3", "tuple2", "tuple3"):
+        def setup(ex, kind=kind):
+            n = int(kind[-1]) if kind != "text" else 0
+            items = [VStr("_")] * n
+            vals = VStr("_") if kind == "text" else (ex.st.alloc(HList(items)) if kind.startswith("list") else VTuple(items))
+            me = ex.st.alloc(HObj(ci, {}))
+            ex.me = me
+            return [me], {"key": VStr("pipeline.g.m.arguments.a"), "values": vals, "boundaries": ex.st.alloc(HList([VFloat(z3.Real("low")), VFloat(z3.Real("high"))])),
+                          "logarithmic": VBool(z3.Bool("logarithmic"))}
+        cfg = Cfg("real")
+        ps = u.paths(fi, setup, cfg, label=f"ParameterValues.__init__[{kind}]")
+        for p in ps:
+            if p.kind != "return":
+                u.oblige(p, f"values.representation[{kind}].accepted", False, {"exc": p.exc_name()}, VALUES_REPLAY)
+                continue
+            v = p.st.cell(p.ex.me).fields.get("_values")
+            if kind == "text":
+                ok = isinstance(v, VStr) and v.v == "_"
+            else:
+                items = p.st.cell(v).items if isinstance(v, VRef) and isinstance(p.st.cell(v), HList) else None
+                ok = items is not None and len(items) == int(kind[-1]) and all(isinstance(x, VStr) and x.v == "_" for x in items)
+            u.oblige(p, f"values.representation[{kind}]", bool(ok), {"stored as": type(v).__name__ if not isinstance(v, VRef) else type(p.st.cell(v)).__name__}, VALUES_REPLAY)
+        u.cover(f"values.representation.cover[{kind}]", ps, lambda p: p.kind == "return")
